@@ -135,6 +135,9 @@ type Builder struct {
 	buf     []byte
 	PtrSize uintptr
 	Sizes   types.Sizes
+	// Align64 is the target's ABI alignment of int64/float64 in bytes;
+	// 0 means 8.
+	Align64 uintptr
 }
 
 // New creates a new ABI type Builder.
